@@ -209,7 +209,7 @@ func (SendReqScenario) Execute(sim *sched.Sim, ci interface{}, prop string, race
 	sim.Optional = nil
 	cb, _ := json.Marshal(c)
 	sim.Note("case:" + string(cb))
-	sim.Canon = newCanon().canon
+	useCanon(sim)
 	conn := simconn.New(sim)
 	conn.YieldAfterPublish = true
 	if c.FailSub {
